@@ -814,6 +814,15 @@ def explicit(tier, seed):
             yield {"sc": name, "path": "gen", "sched": sch,
                    "order": ["c", "c", "s"]}
         yield {"sc": name, "path": "asm", "sched": mix}
+        if name in ("tls13", "tls12-ecdhe", "tls13-hrr") or \
+                tier == "thorough":
+            # every second / two of three sends refused: reads that have to
+            # write (KeyUpdate answer, close_notify reply) meet a would-block
+            for sch in (blk, {"c_recv": [5000], "c_send": [0, 0, 7],
+                              "s_recv": [5000], "s_send": [0, 0, 7]},
+                        {"c_recv": [3], "c_send": [0, 5000],
+                         "s_recv": [3], "s_send": [0, 5000]}):
+                yield {"sc": name, "path": "asm", "sched": sch}
         yield {"sc": name, "path": "thread",
                "sizes": {"c": [[1, 3, 100], [2, 50]],
                          "s": [[7, 1], [1, 1000]]}}
@@ -827,7 +836,7 @@ def explicit(tier, seed):
     sweep = ["tls13", "tls12-ecdhe", "tls10-cbc"] if tier == "quick" else \
         [n for n in SCEN_NAMES if not n.startswith("fail")]
     for name in sweep:
-        for n in range(4, 300 if tier == "quick" else 700):
+        for n in range(1, 300 if tier == "quick" else 700):
             yield {"sc": name, "path": "recsize", "side": "cs"[n % 2],
                    "n": n}
             if tier == "thorough":
